@@ -559,6 +559,58 @@ func checkListener(c *Ctx, ce *chanEngine) {
 	c.Check(rangeClose, "R6", "Stop closes every registered connection", stop.Pos(), "range over the snapshot calling Close", "Stop does not close every connection of its snapshot")
 	c.Check(lnClose, "R6", "Stop closes the listening socket", stop.Pos(), "listener closed", "Stop does not close the listening socket")
 	c.Check(join, "R6", "Stop joins the serving goroutine", stop.Pos(), "receive on done", "Stop does not wait for the serving goroutine")
+	// ... on every path: once the registry has been taken (and set to nil) nobody else will ever close those connections,
+	// so no return - an error of closing the already drained listening socket, say - may come before the connections
+	// are closed and the serving goroutine is joined
+	if nilStore != nil && join {
+		isJoin := func(x ssa.Instruction) bool {
+			u, ok := x.(*ssa.UnOp)
+			if !ok || u.Op != token.ARROW {
+				return false
+			}
+			f, _ := chanFieldOf(u.X)
+			return f == done
+		}
+		early := findPath(posOf(nilStore), pathQuery{target: isReturn, avoid: isJoin})
+		c.Check(early == nil, "R6", "Stop closes the connections and joins on every path", nilStore.Pos(), "every path from the stopped mark reaches the join", "a path returns from Stop after the registry was taken but before the connections are closed and the serving goroutine is joined ("+p.pathString(early)+"): after a Drain the second close of the listening socket fails, Stop returns that error, the established connections are never closed (the registry is already nil) and their handlers keep running")
+	}
+	// the backend connection of the Redis upstream: Stop closes the socket itself, unconditionally - a close that
+	// only happens inside the once of the quit latch is skipped when somebody else (the sweep that asks every
+	// connection to quit first) has used the once, and a writer blocked in a socket write never looks at the latch
+	if cs := p.Func(redisPkg, "(*client).Stop"); cs != nil {
+		cdone := p.Field(redisPkg, "client", "done")
+		isClose := func(x ssa.Instruction) bool {
+			cc := callOf(x)
+			if cc == nil || !cc.IsInvoke() || cc.Method.Name() != "Close" {
+				return false
+			}
+			f, _ := loadedField(cc.Value)
+			return f != nil && f.Name() == "conn"
+		}
+		isWait := func(x ssa.Instruction) bool {
+			u, ok := x.(*ssa.UnOp)
+			if !ok || u.Op != token.ARROW {
+				return false
+			}
+			f, _ := chanFieldOf(u.X)
+			return f == cdone && f != nil
+		}
+		// the close may sit in a same-package helper called from Stop (not in a closure handed to Once.Do)
+		closesOrCalls := func(x ssa.Instruction) bool {
+			if isClose(x) {
+				return true
+			}
+			if cc := callOf(x); cc != nil {
+				if g := cc.StaticCallee(); g != nil && g.Blocks != nil && g.Pkg == cs.Pkg && g.Parent() == nil {
+					okAll, _ := p.mustOnAllPaths(g, isClose, 1)
+					return okAll
+				}
+			}
+			return false
+		}
+		skip := findPath(entryPos(cs), pathQuery{target: isWait, avoid: closesOrCalls})
+		c.Check(skip == nil, "R6", "the backend connection's Stop closes the socket before it waits", cs.Pos(), "every path to the wait closes the connection in Stop itself", "Stop can reach the wait for the connection's goroutines without having closed the socket itself ("+p.pathString(skip)+"): when the close only happens together with the quit latch (inside its once), a Stop that comes after somebody else closed the latch never closes the socket - a writer blocked in a write to a backend that stopped reading is never woken, and Stop hangs")
+	}
 	// proc-level Stop reaches the listener Stop (and upstream Stop for redis)
 	for _, pr := range []struct{ rel, fn string }{{"proc/redis", "(*redisProc).Stop"}, {"proc/tcp", "(*tcpProc).Stop"}} {
 		fn := p.Func(pr.rel, pr.fn)
